@@ -409,6 +409,21 @@ def c09(ctx):
 
     def conf():
         runner.lane_facts(ctx, 'drv_mem.cpp', 'mem', ALL_GROUPS, env_extra={'MEMMODE': 'footprint'})
+        # the footprint of a call must not depend on what the optimiser makes of it: "full-width load, then mask" is
+        # folded into one masked load at -O1 and is two instructions (the first reading the whole window) at -O0
+        if not ctx.only_cfgs:
+            C, configs = runner.configs.Config, runner.configs
+            main_cfgs = ctx.cfgs
+            unopt = [C('sse2-O0', ['SSE2'], opt='-O0'), C('avx2-O0', ['AVX2', 'FMA', 'LZCNT', 'BMI2'], opt='-O0'),
+                     C('avx512f-O0', ['AVX512F'], opt='-O0'), C('avx512legacy-O0', configs.AVX512_LEGACY, opt='-O0'),
+                     C('avx512full-clang20-O0', configs.AVX512_FULL, cxx='clang++', std='c++20', opt='-O0')]
+            if ctx.tier == 'thorough':
+                unopt += [C('avx512vl-O0', ['AVX512VL'], opt='-O0'), C('sse42-O0', ['SSE4_2'], opt='-O0'),
+                          C('avx512full-O3', configs.AVX512_FULL, opt='-O3'), C('avx2-Os', ['AVX2', 'FMA'], opt='-Os'),
+                          C('avx512legacy-O2-noinline', configs.AVX512_LEGACY, opt='-O2', extra=['-fno-inline'])]
+            runner.lane_facts(ctx, 'drv_mem.cpp', 'mem', ALL_GROUPS, env_extra={'MEMMODE': 'footprint'}, cfgs=unopt)
+            ctx.cfgs = main_cfgs
+            ctx.ev['configurations'] = [c.describe() for c in main_cfgs + unopt]
         saved = ctx.cfgs
         vg = [c for c in saved if c.has('SSE2') and not c.has('AVX512F')]
         if vg:
